@@ -49,11 +49,14 @@ ASSUMPTIONS = [
     "real-valued parameters are covered on grids only (alphabets listed in bounds); an error that shows only between "
     "grid points is not seen",
     "dtypes restricted to those reachable from the models: event times float64 (Dataset), population variables and "
-    "parameters float32, xi and tau float32 (samplers, prior mode) or float64 (JointModel.put_individual_parameters -> "
-    "State.put_individual_latent_variables(df)), sources and survival shifts always float32; the all-float32 Weibull path (DESIGN D4) is unreachable and excluded",
+    "parameters float32, xi and tau float32 (samplers, prior mode) or - joint models only - float64 "
+    "(JointModel.put_individual_parameters -> State.put_individual_latent_variables(df)), sources and survival shifts always float32; the all-float32 Weibull path (DESIGN D4) is unreachable and excluded",
     "the location of the observation distributions (state['model']) is read from the state, its closed form is C09's subject",
     "comparison tolerance 2e-5 * sum of the magnitudes of the terms of the reference (+1e-6): float32 implementation "
     "against float64 scipy on identical inputs; realistic errors (constant, dropped term, rho vs rho-1) are O(1)",
+    "Bernoulli probabilities saturated beyond torch's clamp (p < eps32 or p > 1 - eps32, including exactly 0 and 1) are "
+    "covered with a class oracle: the predicted outcome must give a finite value within 1e-6 of the exact 0; the other "
+    "outcome (exact +inf or >= 16.6, clamped implementation 15.94) must give a value >= 15 that is not NaN (+inf accepted)",
     "exactly at t == tau an observed event may either get the prohibitive penalty or scipy's finite density value",
     "hash order fixed (PYTHONHASHSEED=0), single torch thread",
 ]
@@ -81,6 +84,9 @@ def alphabets(tier, seed):
     a = dict(x=list(N_X), loc=list(N_LOC), scale=list(N_SCALE), p=list(B_P), nu=list(W_NU), rho=list(W_RHO),
              xi=list(W_XI), tau=list(W_TAU), delta=list(W_DELTA), shift=list(W_SHIFT))
     # the seed only extends alphabets (values exactly representable in float32)
+    # saturated probabilities (all exactly representable in float32): exact 0 / 1, the float32 neighbours of 1 on both sides
+    # of the clamp 1 - eps32, the smallest denormal, 2^-24 (< eps32) and eps32 itself
+    a["p"] += [0.0, 1.0, 1.0 - 2.0**-24, 1.0 - 2.0**-23, 2.0**-149, 2.0**-24, 2.0**-23]
     a["x"].append(1.0 + 0.125 * (seed % 64))
     a["delta"].append(1.0 + 0.25 * (seed % 64))
     if tier == "thorough":
@@ -101,7 +107,8 @@ def bounds(tier):
         "normal": {"x": a["x"] + ["1+seed/8"], "loc": a["loc"], "scale": a["scale"],
                    "layouts": list(NORMAL_LAYOUTS), "functions": ["nll", "regularization", "nll_and_jacobian", "nll_jacobian"],
                    "dtypes(x,params)": NORMAL_DTYPES[tier]},
-        "bernoulli": {"p": a["p"], "x": [0, 1], "layout": "(n,t,f) masked", "dtypes": ["f32"]},
+        "bernoulli": {"p": a["p"], "x": [0, 1], "layout": "(n,t,f) masked", "dtypes": ["f32"],
+                      "saturated model states": "xi in {1.5, 3}, visits at ages 1 and 140 (float32 curve exactly 0 / ~1e-25 / exactly 1), outcomes agreeing and contradicting"},
         "weibull": {"nu": a["nu"], "rho": a["rho"], "xi": a["xi"], "tau": a["tau"], "t-tau": a["delta"] + ["1+seed/4"],
                     "event code": "0..n_events", "survival shift": a["shift"], "n_events": [1, 2],
                     "families": ["without sources", "with sources"],
@@ -146,7 +153,7 @@ class Out:
         self.keys = []  # nontrivial keys
         self.outcomes = []
         self.margins = []
-        self.skipped = 0
+        self.saturated = 0
         self.example = None  # one written-out entry: inputs, observed, reference
 
     def bad(self, sig, msg, row, expected=None, observed=None):
@@ -188,11 +195,54 @@ def ref_normal(x, loc, scale):
     return ref, tol
 
 
+EPS32 = 2.0**-23  # torch.distributions clamps probabilities to [eps32, 1 - eps32]
+SAT_AGREE_ATOL = 1e-6  # exact value is < 6e-8 there; the clamped implementation returns -log(1 - eps32) = 1.19e-7
+SAT_DISAGREE_MIN = 15.0  # exact value is >= -log(2^-24) = 16.6 (or +inf); the clamped implementation returns -log(eps32) = 15.94
+
+
 def ref_bernoulli(x, p):
-    x, p = np.broadcast_arrays(x, p)
-    ref = -stats.bernoulli.logpmf(x, p)
-    tol = RTOL * np.abs(ref) + 5e-6  # torch goes through logits: absolute error ~ eps32 * |logit|
-    return ref, tol
+    """Entry-wise reference -log pmf, tolerance and class.
+
+    "regular": eps32 <= p <= 1 - eps32, compared with scipy within the rounding tolerance.
+    "sat-agree": p saturated (< eps32 or > 1 - eps32, including exactly 0 / 1) and the outcome is the one the
+        probability predicts: the exact value is 0 (at most 6e-8); demanded: finite and within 1e-6 of it.
+    "sat-disagree": p saturated and the outcome is the other one: the exact value is +inf (p exactly 0 / 1) or >= 16.6;
+        the documented torch behaviour is the clamped -log(eps32) = 15.94.  Demanded: not NaN, not -inf, >= 15
+        (+inf, the exact value, is accepted).  Cannot alarm on the real implementation: it returns 15.94 for every
+        saturated p, and any exact evaluation returns >= 16.6."""
+    x, p = np.broadcast_arrays(np.asarray(x, np.float64), np.asarray(p, np.float64))
+    with np.errstate(all="ignore"):
+        ref = -stats.bernoulli.logpmf(x, p)
+    sat = (p < EPS32) | (p > 1 - EPS32)
+    agree = sat & (((p < EPS32) & (x == 0)) | ((p > 1 - EPS32) & (x == 1)))
+    klass = np.full(x.shape, "regular", dtype=object)
+    klass[agree] = "sat-agree"
+    klass[sat & ~agree] = "sat-disagree"
+    with np.errstate(all="ignore"):
+        tol = np.where(sat, SAT_AGREE_ATOL, RTOL * np.abs(ref) + 5e-6)  # torch goes through logits: abs. error ~ eps32 * |logit|
+    return ref, tol, klass
+
+
+def judge_bernoulli(out, site, feature, obs, ref, tol, klass, rows, mask):
+    obs = np.asarray(obs, np.float64).reshape(-1)
+    ref, tol, klass, mask = ref.reshape(-1), tol.reshape(-1), klass.reshape(-1), np.asarray(mask, bool).reshape(-1)
+    for i in np.flatnonzero(mask):
+        o, k = obs[i], klass[i]
+        if k == "sat-disagree":
+            if not (o >= SAT_DISAGREE_MIN):  # NaN, -inf, or not large
+                out.bad(f"{site}|saturated probability, other outcome: NaN or below -log(eps32)|{feature}",
+                        f"{site}: entry {i} observed {o!r}, exact -log pmf {ref[i]!r}", rows[i], ">=15 (exact +inf or clamped 15.94)", _j(o))
+        elif not np.isfinite(o):
+            out.bad(f"{site}|not finite|{feature}" if k == "regular" else
+                    f"{site}|saturated probability, predicted outcome: not finite|{feature}",
+                    f"{site}: entry {i} ({k}) is {o!r}, exact -log pmf {ref[i]!r}", rows[i], _j(ref[i]), _j(o))
+        elif not abs(o - ref[i]) <= tol[i]:
+            out.bad(f"{site}|differs from -scipy.stats.bernoulli.logpmf|{feature}" if k == "regular" else
+                    f"{site}|saturated probability, predicted outcome: not within 1e-6 of the exact value|{feature}",
+                    f"{site}: entry {i} ({k}) observed {o!r} reference {ref[i]!r} (tolerance {tol[i]:.3g})", rows[i], _j(ref[i]), _j(o))
+    reg = mask & (klass == "regular") & np.isfinite(obs)
+    with np.errstate(all="ignore"):
+        out.margins.append(_margin_bucket(np.abs(obs - ref)[reg], tol[reg]))
 
 
 def ref_weibull(t, observed, nu, rho, xi, tau, shift):
@@ -475,18 +525,18 @@ def run_family(case):
                         out.keys.append(_h("NJ", layout, dts, xx[ix], ll[ix], ss[ix]))
                         out.outcomes.append("normal-jacobian:" + _cls(float(A(jac).reshape(-1)[i])))
     elif dist == "bernoulli":
-        ref, tol = ref_bernoulli(x64, p64["loc"])
+        ref, tol, bkl = ref_bernoulli(x64, p64["loc"])
         if shape_ok(res, "nll"):
             if res.weight is None or not torch.equal(res.weight.to(torch.bool), w):
                 out.bad(f"{site}|weight of the value is not carried to its likelihood term|{layout}", "weights differ", None)
-            _compare(out, site, layout, A(res), ref, tol, rows, wfull, "differs from -scipy.stats.bernoulli.logpmf")
+            judge_bernoulli(out, site, layout, A(res), ref, tol, bkl, rows, wfull)
             obs = A(res).reshape(-1)
             out.example = {"entry": list(idx[0]), "x": float(x64[idx[0]]), "p": float(p64["loc"][idx[0]]), "observed": _j(obs[0]),
                            "-bernoulli.logpmf": _j(ref[idx[0]])}
             for i, ix in enumerate(idx):
                 if wfull[ix]:
-                    out.keys.append(_h("B", dts, x64[ix], p64["loc"][ix]))
-                    out.outcomes.append(f"bernoulli:x={int(x64[ix])}:{_cls(obs[i])}")
+                    out.keys.append(_h("B", dts, x64[ix], repr(p64["loc"][ix])))
+                    out.outcomes.append(f"bernoulli:x={int(x64[ix])}:{bkl[ix]}:{_cls(obs[i])}")
                 else:
                     out.outcomes.append("bernoulli:masked")
     else:
@@ -642,15 +692,15 @@ def run_state(case):
     ykey = "nll_attach_y_ind" if joint else "nll_attach_ind"
     with np.errstate(all="ignore"):
         if noise == "bernoulli":
-            ent, etol = ref_bernoulli(np.where(m, y, 0.0), np.clip(loc, 1e-300, 1 - 1e-16))
-            # torch clamps probabilities to [eps32, 1-eps32]: keep the comparison to the well-conditioned range
-            skip = (m & ((loc < 1e-6) | (loc > 1 - 1e-6))).any(axis=(1, 2))
+            ent, etol, bkl = ref_bernoulli(np.where(m, y, 0.0), loc)
+            hard = m & (bkl == "sat-disagree")  # exact value +inf (or >= 16.6): only a lower bound is demanded
+            ent = np.where(hard, 0.0, ent)
+            n_hard = hard.sum(axis=(1, 2))
+            out.saturated = int((m & (bkl != "regular")).sum())
         else:
             sd = np.broadcast_to(A(st["noise_std"]), (dim,))
             ent, etol = ref_normal(np.where(m, y, 0.0), loc, sd)
-    if noise != "bernoulli":
-        skip = np.zeros(n, bool)
-    out.skipped = int(skip.sum())
+            n_hard = np.zeros(n, int)
     ref_y = np.where(m, ent, 0.0).sum(axis=(1, 2))
     tol_y = np.where(m, etol, 0.0).sum(axis=(1, 2)) + ATOL
     v = read(ykey)
@@ -659,15 +709,23 @@ def run_state(case):
         if tuple(v.shape) != (n,):
             out.bad(f"{site}|shape|{tag}", f"shape {tuple(v.shape)} for {n} individuals", None)
         else:
-            _compare(out, site, tag, A(v), ref_y, tol_y, allrows, ~skip,
+            _compare(out, site, tag, A(v), ref_y, tol_y, allrows, n_hard == 0,
                      "differs from the sum of -logpdf/-logpmf over the individual's observed entries")
             o = A(v)
+            # individuals having k entries whose outcome contradicts a saturated probability (exact term +inf, clamped
+            # implementation 15.94 each): never NaN / -inf, and at least the other entries' sum + 15 k
+            for i in np.flatnonzero(n_hard > 0):
+                if not (o[i] >= ref_y[i] + SAT_DISAGREE_MIN * n_hard[i] - tol_y[i]):
+                    out.bad(f"{site}|saturated probability, other outcome: NaN or below -log(eps32) per such entry|{tag}",
+                            f"{site}: individual {i} observed {o[i]!r}; {int(n_hard[i])} entries contradict a saturated probability, "
+                            f"the other entries sum to {ref_y[i]!r}", i, f">= {ref_y[i] + SAT_DISAGREE_MIN * n_hard[i]:.6g}", _j(o[i]))
             out.example = {"individual": 0, "row": rows[0], "model(read from state)": loc[0][m[0]].tolist(), f"state[{ykey}]": _j(o[0]),
                            "reference": _j(ref_y[0])}
             locr, sds, ol = np.round(loc, 6), ("" if noise == "bernoulli" else str(sd.tolist())), o.tolist()
-            for i in np.flatnonzero(~skip):
-                out.keys.append(_h("SY", tag, dts, y[i][m[i]].tolist(), locr[i][m[i]].tolist(), sds))
-                out.outcomes.append(f"state:{noise}:{_cls(ol[i])}")
+            loce = [[repr(q) for q in loc[i][m[i]]] for i in range(n)] if noise == "bernoulli" else None  # keep 1e-25 apart from 0
+            for i in range(n):
+                out.keys.append(_h("SY", tag, dts, y[i][m[i]].tolist(), loce[i] if loce else locr[i][m[i]].tolist(), sds))
+                out.outcomes.append(f"state:{noise}:{_cls(ol[i])}" + (f":{int(n_hard[i])} contradicted saturated entries" if n_hard[i] else ""))
 
     # ---- events
     ref_e = None
@@ -818,8 +876,8 @@ def explore(case, acc):
         acc.count(mg)
     acc.count(f"calls:{case['part']}:{case.get('dist') or case['spec']['kind']}")
     acc.count("entries", len(out.outcomes))
-    if out.skipped:
-        acc.count("individuals skipped: Bernoulli probability within 1e-6 of 0 or 1", out.skipped)
+    if out.saturated:
+        acc.count("observed Bernoulli entries with a saturated probability (p < eps32 or p > 1 - eps32)", out.saturated)
     for sig, msg, row, exp, obs in out.viol:
         if sig in acc.violations:
             acc.violations[sig]["count"] += 1
@@ -854,7 +912,9 @@ def state_shards(tier, seed):
         logi += [_spec("logistic", 3, 2, "gaussian-diagonal"), _spec("logistic", 1, 0, "bernoulli")]
         jnt += [(_spec("joint", 3, 2, "gaussian-diagonal"), 2), (_spec("joint", 2, 1, "gaussian-scalar"), 1)]
     for s in logi:
-        for ind_dt in ("f32", "f64"):
+        # float64 xi / tau only arise in JointModel.put_individual_parameters (-> State.put_individual_latent_variables(df));
+        # LogisticModel initialises from prior samples (float32), so the float64 variant is not reachable here
+        for ind_dt in ("f32",):
             out.append({"part": "state", "name": f"{s['kind']}_d{s['dim']}_s{s['ns']}_{s['noise']}:grid:{ind_dt}", "spec": s, "ne": 1,
                         "ind_dt": ind_dt, "data": "grid"})
         out.append({"part": "state", "name": f"{s['kind']}_d{s['dim']}_s{s['ns']}_{s['noise']}:catalogue", "spec": s, "ne": 1,
@@ -947,6 +1007,13 @@ def _grid_rows(spec, ne, ind_dt, a):
                 vals[-1] = None  # a missing entry at a real visit
             visits.append([age, vals])
         rows.append({"xi": xi, "tau": tau, "sources": list(src), "visits": visits})
+    if noise == "bernoulli":
+        # saturated model states: a fast progressor seen very early (float32 curve exactly 0 or ~1e-25) and very late
+        # (exactly 1.0), with outcomes agreeing / disagreeing with the saturated probability in every combination
+        for xi, tau, early, late in itertools.product([1.5, 3.0], a["tau"], [0.0, 1.0], [0.0, 1.0]):
+            rows.append({"xi": xi, "tau": tau, "sources": list(srcs[0]),
+                         "visits": [[1.0, [abs(early - (k % 2)) for k in range(dim)]], [140.0, [abs(late - (k % 2)) for k in range(dim)]]]})
+            rows.append({"xi": xi, "tau": tau, "sources": list(srcs[0]), "visits": [[140.0 if late else 1.0, [early] * dim]]})
     return rows
 
 
